@@ -350,6 +350,11 @@ def relative_cases(draw):
     B = np.array([[TR.unit(draw) for _ in range(ncol)] for _ in range(6)])
     s = draw(S.log_uniform(1e-8, 1.0))
     J = (B @ B.T) * s
+    if draw(st.booleans()):
+        # stations of different quality (a constrained station next to a free one): standard deviations scaled per station
+        d1, d2 = draw(S.log_uniform(1e-6, 1.0)), draw(S.log_uniform(1e-6, 1.0))
+        D = np.diag([d1] * 3 + [d2] * 3)
+        J = D @ J @ D
     if draw(st.integers(0, 4)) == 0:
         # structured: both stations with the same tied horizontal block at a pole-free cardinal position, no cross covariance
         T3 = np.array(draw(tie_matrices()))
@@ -426,6 +431,34 @@ def tie_matrices(draw):
 
 ell_cases = st.fixed_dictionaries({"vcv": st.one_of(psd_cond(), psd_cond(), tie_matrices())})
 
+def _relative_fill(u):
+    """Position x two station scales (standard deviations 1e-6..1 of the joint scale, log-uniform) x a joint 6x6 covariance B B^T whose
+    6x6 factor is filled from further radical-inverse streams of the point's first coordinates."""
+    lat, lon = -90.0 + 180.0 * u[0], -360.0 + 720.0 * u[1]
+    d1, d2 = 10.0 ** (-6.0 * u[2]), 10.0 ** (-6.0 * u[3])
+    B = np.empty((6, 6))
+    t = u[4]
+    for i in range(6):
+        for j in range(6):
+            t = (t * 61.0 + u[5] * 17.0 + 0.137) % 1.0      # a deterministic scramble of two coordinates: entries in [-1, 1)
+            B[i, j] = 2.0 * t - 1.0
+    D = np.diag([d1] * 3 + [d2] * 3)
+    J = D @ (B @ B.T) @ D * 10.0 ** (-8.0 * u[6])
+    return {"lat": lat, "lon": lon, "var1": J[:3, :3].tolist(), "var2": J[3:, 3:].tolist(), "cov12": J[:3, 3:].tolist()}
+
+
+def _ellipse_fill(u):
+    """Horizontal block from (scale, axis ratio 1e-8..1 log-uniform, orientation), a correlated up component."""
+    sc, ra, th = 10.0 ** (-8.0 * u[0]), 10.0 ** (-8.0 * u[1]), 180.0 * u[2]
+    s_, c_ = math.sin(math.radians(th)), math.cos(math.radians(th))
+    l1, l2 = sc, sc * ra
+    e2, n2, en = l1 * s_ * s_ + l2 * c_ * c_, l1 * c_ * c_ + l2 * s_ * s_, (l1 - l2) * s_ * c_
+    uu = sc * 3.0 * u[3]
+    k = 0.9 * (2 * u[4] - 1)
+    c = k * math.sqrt(l2 * uu)          # |c|^2 <= lambda_min(H) x up variance keeps the 3x3 matrix positive semi-definite
+    return {"vcv": [[e2, en, c], [en, n2, 0.0], [c, 0.0, uu]]}
+
+
 def _ellipse_lines(rnd):
     """The horizontal block turned through all orientations (0..180 deg) at a seeded pair of eigenvalues, and its axis ratio walked
     from 1e-8 to 1 (log-spaced) at a seeded orientation; two lines each."""
@@ -462,6 +495,12 @@ SUBCHECKS = [
     SubCheck("error_ellipse_sweeps", check_ellipse, enumerate=S.sweeps(1616, _ellipse_lines, 20000, 400000), classes=_cls,
              shards_quick=4, shards_thorough=8,
              rule="stratified sweeps: the horizontal block through every orientation and through axis ratios 1e-8..1 (20 000 / 400 000 lattice points per line, 4 lines, seeded)"),
+    SubCheck("error_ellipse_fill", check_ellipse, enumerate=S.fill(1626, 5, _ellipse_fill, 60000, 1200000), classes=_cls,
+             shards_quick=4, shards_thorough=8,
+             rule="low-discrepancy fill of scale x axis ratio (1e-8..1) x orientation x up variance / correlation: 60 000 / 1 200 000 matrices"),
+    SubCheck("relative_error_fill", check_relative, enumerate=S.fill(1627, 7, _relative_fill, 30000, 600000), classes=_cls,
+             shards_quick=8, shards_thorough=16,
+             rule="low-discrepancy fill of position x the two stations' scales (1e-6..1 in standard deviation) x joint covariance: 30 000 / 600 000 cases"),
     SubCheck("relative_error", check_relative, strategy=relative_cases(), classes=_cls, quick=2000, thorough=100000,
              shards_quick=2, shards_thorough=8,
              fresh=(8, 64, 3), rule="ellipse and up sigma of R^T (var1 + var2 - cov12 - cov12^T) R with a non-symmetric cov12 block from a valid joint covariance"),
